@@ -64,6 +64,7 @@ def capture_twin(S, rng):
 
 class C07:
     id = "C07"
+    instr_in_thorough = True      # thorough tier: second pass on the -finstrument-functions build (DESIGN 2.3)
     level = "exploration"
     quick_runs = 250
     quick_budget_s = 150
@@ -136,6 +137,7 @@ class C07:
             if ids:
                 fault = (rng.choice(ids), rng.choice(("eval", "eval", "start", "stop")), rng.randint(1, 2))
         return dict(S=S, others=others, repeat=rng.randint(2, 4), fault=fault, nconc=rng.randint(2, 4), simseed=rng.getrandbits(32),
+                    instr=1 if getattr(self, "instr", False) else 0,
                     gctx=1 if random.Random(seed ^ 0x6C7).random() < 0.4 else 0,
                     mix=rng.choice(("copies", "others", "mixed")),
                     clock=dict(seed=rng.getrandbits(32), stall_rate=rng.choice((0.05, 0.3)), stall_us=rng.choice((1000, 10 ** 7)), coarse=rng.choice((0, 1))))
@@ -243,11 +245,16 @@ class C07:
                 ctext += "simtape " + ",".join(str(x) for x in case["simtape"]) + "\n"     # explicit (minimised) interleaving
             if case.get("emit_simtape"):
                 ctext += "emit_simtape\n"
+            variant = self.san
+            if getattr(self, "instr", False) or case.get("instr"):
+                # instrumented build: extra pre-emption points inside engine code, on average every <n> function calls
+                ctext += "instr %d\n" % random.Random(case["simseed"]).choice((20, 100, 400, 2000))
+                variant = "instr"
             for i, p in enumerate(progs):
                 # (a GlobalContext is a per-thread selection: the concurrent executors run without one)
                 q = dict(p, options={k: x for k, x in p.get("options", {}).items() if k != "gctx"})
                 ctext += "=== %d\n" % i + dataflow.emit(q)
-            r = runner.run_fresh(ctext, san=self.san) if fresh else runner.run(ctext, san=self.san, timeout=40)
+            r = runner.run_fresh(ctext, san=variant) if fresh else runner.run(ctext, san=variant, timeout=40)
             if not r.ok:
                 if r.timeout:
                     return Outcome(harness_error="timeout in concurrent run", sample=dict(scenario=ctext))
@@ -280,6 +287,7 @@ class C07:
                     stats["scheduler_steps"] += end[0].get("steps", 0)
                     stats["preemptions"] += end[0].get("preemptions", 0)
                     stats["mutex_blocks"] += end[0].get("mutex_blocks", 0)
+                    stats["instr_preemption_points"] = stats.get("instr_preemption_points", 0) + end[0].get("instr_points", 0)
                     stats["faults_fired"]["F3_preemption"] += end[0].get("preemptions", 0)
                     ihash = end[0].get("trace_hash")
                 stats["concurrent_executors"] += n
